@@ -237,6 +237,13 @@ class Gen:
                 "allow_none": self.rng.random() < 0.3,
                 "body": self.body(cid, nparams, arities),
             })
+        # allow_none is looked up cells -> space -> model: in a third of the programs the settings are spread over
+        # the three levels (every combination of unset / allowed / not allowed arises)
+        if cells and self.rng.random() < 0.35:
+            cells[0]["an_space"] = self.rng.choice([None, None, True, False])
+            cells[0]["an_model"] = self.rng.choice([False, False, True])
+            for c in cells:
+                c["allow_none"] = self.rng.choice([None, None, True, False])
         refs = {r: self.rng.randint(-1, 4) for r in range(self.n_rn + self.n_ra)}
         return cells, refs
 
